@@ -109,12 +109,19 @@ PROPS = {
         ],
     },
     "C11": {
-        "modules": ["Hannibal.Props.C11", "Hannibal.Props.C11Current"],
-        "theorems": ["Hannibal.C11_holds", "Hannibal.C11_current"],
+        "modules": ["Hannibal.Props.C11", "Hannibal.Props.C11Current", "Hannibal.Props.C11C", "Hannibal.Props.C11CCurrent",
+                    "Hannibal.Props.C11T", "Hannibal.Props.C11TCurrent", "Hannibal.Proofs.C11TProj"],
+        "theorems": ["Hannibal.C11_holds", "Hannibal.C11_current", "Hannibal.C11c_holds", "Hannibal.C11c_current",
+                     "Hannibal.C11t_holds", "Hannibal.C11t_current", "Hannibal.prun_run", "Hannibal.monC11p_ok_imp_monC11t"],
         "cases": {"quick": {"C11": 1500}, "thorough": {"C11": 20000, "x:C11": 320, "C06": 3000}},
         "assumptions": COMMON_ASSUMPTIONS + [
-            "prompt-schedule clauses (monC11p: needs-less-than-t completes, needs-more is abandoned exactly at t, "
-            "the caller of an abandoned invocation gets an error) are judged on real traces only",
+            "prompt-schedule clauses of monC11p (needs-less-than-t completes, needs-more is abandoned exactly at t) are "
+            "theorem C11t_holds for prompt runs of the model (prun: the clock advances only while the invocation in "
+            "progress is asleep and its deadline is not due - the reading of 'the schedule only advances time when nothing "
+            "is runnable'); monC11t is exactly the timing part of monC11p (monC11p_ok_imp_monC11t, "
+            "monC11p_eq_monC11t_of_noRet); witness c11tLate: false of unrestricted runs. On real traces monC11p itself runs",
+            "'the caller of an abandoned invocation gets an error' is theorem C11c_holds for every run with fresh message "
+            "numbers and operation ids (wf01, checked on every real trace by monWf01; witnesses c11cReuseMsg, c11cReuseOp)",
             "d = t is excluded (select! picks randomly); virtual clock replaces real time",
             "'state intact afterwards' is covered by the digest clause of C01's monitor on the same traces",
         ],
@@ -183,8 +190,8 @@ PROPS = {
         ],
     },
     "C08": {
-        "modules": ["Hannibal.Props.C08", "Hannibal.Props.C08Current"],
-        "theorems": ["Hannibal.C08_holds", "Hannibal.C08_current", "Hannibal.wellWired08_current"],
+        "modules": ["Hannibal.Props.C08", "Hannibal.Props.C08Current"],  # shape08_current: Generated/SysFacts
+        "theorems": ["Hannibal.C08_holds", "Hannibal.C08_current", "Hannibal.wellWired08_current", "Hannibal.shape08_current"],
         "driver": "reg08",
         "cases": {"quick": {"C08": 2000}, "thorough": {"C08": 40000}},
         "assumptions": [
@@ -201,7 +208,7 @@ PROPS = {
         "modules": ["Hannibal.Props.C16", "Hannibal.Props.C16Current", "Hannibal.Props.C16Q", "Hannibal.Props.C16QCurrent"],
         "theorems": ["Hannibal.C16_kept", "Hannibal.C16_released", "Hannibal.sys_actor_run", "Hannibal.C16_lifetime",
                      "Hannibal.C16_broadcast", "Hannibal.C16_lifetime_current", "Hannibal.C16_broadcast_current",
-                     "Hannibal.C16q_holds", "Hannibal.C16q_current", "Hannibal.monC16q_lenient"],
+                     "Hannibal.C16q_holds", "Hannibal.C16q_current", "Hannibal.monC16q_lenient", "Hannibal.shape16_current"],
         "driver": "sys16",
         "cases": {"quick": {"C16": 2000}, "thorough": {"C16": 40000}},
         "assumptions": COMMON_ASSUMPTIONS + [
@@ -221,9 +228,10 @@ PROPS = {
     },
     "C09": {
         "modules": ["Hannibal.Props.C09",
-                    "Hannibal.Props.C09Q"],
+                    "Hannibal.Props.C09Q", "Hannibal.Props.C09Current", "Hannibal.Props.C09P"],
         "theorems": ["Hannibal.C09_holds", "Hannibal.c09_step", "Hannibal.deliver_ok",
-                     "Hannibal.C09q_holds", "Hannibal.C09qs_holds"],
+                     "Hannibal.C09q_holds", "Hannibal.C09qs_holds", "Hannibal.shape09_current",
+                     "Hannibal.C09p_progress", "Hannibal.C09p_publish_returns"],
         "driver": "brk09",
         "cases": {"quick": {"C09": 2500}, "thorough": {"C09": 50000}},
         "assumptions": [
